@@ -11,9 +11,10 @@
 (*   nl, nb     lend / borrow id counters                                                                *)
 (*   price      <<[a, p, act]>>           TWA per underlying asset (raw), active flag                    *)
 (*   lends      <<[id, o, pool, asset, ain, av, rew]>>      owner, AmountIn, AvailableToBorrow, rewards  *)
-(*   borrows    <<[id, lend, pair, cin, ca, out, oa, iT, liq, st, bra, bram]>>                           *)
+(*   borrows    <<[id, lend, pair, cin, ca, out, oa, iT, liq, ho, st, bra, bram]>>                       *)
 (*              collateral cTokens (amount, underlying asset), principal (amount, asset), whole coins of *)
-(*              accrued interest, IsLiquidated, IsStableBorrow, bridged transit asset and amount         *)
+(*              accrued interest, IsLiquidated flag, ho = handed over to a liquidation auction (the       *)
+(*              liquidation module holds a locked vault for it), IsStableBorrow, bridged asset / amount  *)
 (*   stats      <<[pool, asset, tl, tb, tsb, tia, lids, bids]>>   published PoolAssetLBMapping           *)
 (*   pb         <<[pool, asset, amt, c]>>  pool module account: underlying coins and cTokens held        *)
 (*   ub         <<[u, asset, amt, c]>>     user balances: underlying coins and cTokens                   *)
@@ -88,12 +89,12 @@ Done(s) == [ok |-> TRUE, st |-> s]
 (* ======================================================================================== *)
 
 (* collateral pledged to the open borrows of lend position lid that has NOT been handed over to a liquidation auction *)
-Pledged(s, lid) == SumOver(s.borrows, LAMBDA b : IF b.lend = lid /\ ~b.liq THEN b.cin ELSE 0)
+Pledged(s, lid) == SumOver(s.borrows, LAMBDA b : IF b.lend = lid /\ ~b.ho THEN b.cin ELSE 0)
 (* what the positions of (pool, asset) say was lent *)
 LentByPositions(s, p, a) == SumOver(s.lends, LAMBDA l : IF l.pool = p /\ l.asset = a THEN l.av + Pledged(s, l.id) ELSE 0)
 (* principal of the open borrows of (out pool, out asset) that are not under liquidation; variable / stable *)
 BorrowedByPositions(cfg, s, p, a, stable) ==
-  SumOver(s.borrows, LAMBDA b : IF ~b.liq /\ b.st = stable /\ HasPair(cfg, b.pair) /\ PairC(cfg, b.pair).opool = p /\ PairC(cfg, b.pair).aout = a
+  SumOver(s.borrows, LAMBDA b : IF ~b.ho /\ b.st = stable /\ HasPair(cfg, b.pair) /\ PairC(cfg, b.pair).opool = p /\ PairC(cfg, b.pair).aout = a
                                  THEN b.out ELSE 0)
 
 BooksLend(s)        == \A x \in Range(s.stats) : x.tl = LentByPositions(s, x.pool, x.asset)
@@ -139,15 +140,21 @@ Released(s, s2) == {i \in 1..Len(s2.borrows) :
                       LET b == s2.borrows[i] IN ~b.liq /\ (IF HasId(s.borrows, b.id) THEN GetId(s.borrows, b.id).out < b.out ELSE b.out > 0)}
 ReleasedAmt(s, b) == IF HasId(s.borrows, b.id) THEN b.out - GetId(s.borrows, b.id).out ELSE b.out
 
-(* C08: every released loan satisfies the pair's LTV at the prices in force (collateral valued as the pledged cToken's asset) *)
+(* a position is well-formed when the cToken it pledges is the cToken of its lend position's asset *)
+WellFormed(s, b) == HasId(s.lends, b.lend) /\ GetId(s.lends, b.lend).asset = b.ca
+(* C08: every released loan satisfies the pair's LTV at the prices in force (collateral = the pledged cTokens, valued as their asset) *)
 LtvOnRelease(cfg, s, s2) == \A i \in Released(s, s2) :
-      LET b == s2.borrows[i] IN HasPair(cfg, b.pair) /\ LtvHolds(cfg, s2, b, PairLtv(cfg, PairC(cfg, b.pair)), One)
+      LET b == s2.borrows[i] IN WellFormed(s2, b) => HasPair(cfg, b.pair) /\ LtvHolds(cfg, s2, b, PairLtv(cfg, PairC(cfg, b.pair)), One)
+(*      the same for positions that pledge cTokens of ANOTHER asset than their lend position's. NAMED DEVIATION: BorrowAsset sizes *)
+(*      the loan with the lend position's asset price although it takes (and a liquidation auctions) the pair's collateral asset.   *)
+LtvOnReleaseMismatched(cfg, s, s2) == \A i \in Released(s, s2) :
+      LET b == s2.borrows[i] IN ~WellFormed(s2, b) => HasPair(cfg, b.pair) /\ LtvHolds(cfg, s2, b, PairLtv(cfg, PairC(cfg, b.pair)), One)
 (* C08: ... and for cross-pool (bridged) positions with the product of the two ratios: when the position is opened ... *)
 LtvOnOpenBridged(cfg, s, s2) == \A i \in Released(s, s2) :
-      LET b == s2.borrows[i] IN b.bram > 0 /\ ~HasId(s.borrows, b.id) => LtvHolds(cfg, s2, b, PairLtv(cfg, PairC(cfg, b.pair)), BridgeLtv(cfg, b))
+      LET b == s2.borrows[i] IN b.bram > 0 /\ ~HasId(s.borrows, b.id) /\ WellFormed(s2, b) => LtvHolds(cfg, s2, b, PairLtv(cfg, PairC(cfg, b.pair)), BridgeLtv(cfg, b))
 (*      ... and when more is drawn on it. NAMED DEVIATION: DrawAsset (keeper.go:1252) applies the collateral asset's ratio alone. *)
 LtvOnDrawBridged(cfg, s, s2) == \A i \in Released(s, s2) :
-      LET b == s2.borrows[i] IN b.bram > 0 /\ HasId(s.borrows, b.id) => LtvHolds(cfg, s2, b, PairLtv(cfg, PairC(cfg, b.pair)), BridgeLtv(cfg, b))
+      LET b == s2.borrows[i] IN b.bram > 0 /\ HasId(s.borrows, b.id) /\ WellFormed(s2, b) => LtvHolds(cfg, s2, b, PairLtv(cfg, PairC(cfg, b.pair)), BridgeLtv(cfg, b))
 (* C08: the out pool actually held the lent-out coins before the step *)
 PoolHeldLoan(cfg, s, s2) == \A i \in Released(s, s2) :
       LET b == s2.borrows[i] IN HasPair(cfg, b.pair) /\ PB(s, PairC(cfg, b.pair).opool, b.oa).amt >= ReleasedAmt(s, b)
@@ -156,7 +163,7 @@ PoolHeldLoan(cfg, s, s2) == \A i \in Released(s, s2) :
 (*      every non-liquidated borrow on it keeps its collateral, the position stays while it has borrows, and the    *)
 (*      coins paid out are at most what was available plus the reward credited in this very step (+ extra).         *)
 NoRelease(s, s2, lid, u, a, extra, closedB) ==
-  /\ \A b \in Range(s.borrows) : b.lend = lid /\ ~b.liq /\ b.id # closedB =>
+  /\ \A b \in Range(s.borrows) : b.lend = lid /\ ~b.ho /\ b.id # closedB =>
         /\ HasId(s2.borrows, b.id) /\ GetId(s2.borrows, b.id).cin >= b.cin /\ GetId(s2.borrows, b.id).lend = lid
         /\ HasId(s2.lends, lid)
   /\ HasId(s.lends, lid) /\ HasUB(s, u, a) =>
@@ -290,7 +297,7 @@ UserBorrowOnPair(s, u, pid) == {b \in Range(s.borrows) : b.pair = pid /\ HasId(s
 NewBorrow(cfg, s, u, l, pr, cin, loan, stable, bra, bram) ==
   LET id == s.nb + 1
       b == [id |-> id, lend |-> l.id, pair |-> pr.id, cin |-> cin, ca |-> pr.ain, out |-> loan, oa |-> pr.aout, iT |-> 0,
-            liq |-> FALSE, st |-> stable, bra |-> bra, bram |-> bram]
+            liq |-> FALSE, ho |-> FALSE, st |-> stable, bra |-> bra, bram |-> bram]
       s1 == UserAmt(PoolAmt(PoolCt(UserCt(s, u, pr.ain, -cin), l.pool, pr.ain, cin), pr.opool, pr.aout, -loan), u, pr.aout, loan)
       s2 == AddBid(AddTB(s1, pr.opool, pr.aout, stable, loan), pr.opool, pr.aout, id)
   IN [PutLend(s2, [l EXCEPT !.av = @ - cin]) EXCEPT !.nb = id, !.borrows = Append(@, b)]
@@ -392,7 +399,7 @@ AccrueEnv(s, bid, d) == IF HasId(s.borrows, bid) /\ ~GetId(s.borrows, bid).liq
 (* V2 liquidation hand-over (x/liquidationsV2/keeper/liquidate.go UpdateLockedBorrows): the collateral leaves the books *)
 HandOver(cfg, s, bid, iT) ==
   LET b == GetId(s.borrows, bid)  pr == PairC(cfg, b.pair)  l == GetId(s.lends, b.lend)
-      s1 == PutBorrow(s, [b EXCEPT !.liq = TRUE, !.iT = iT])
+      s1 == PutBorrow(s, [b EXCEPT !.liq = TRUE, !.ho = TRUE, !.iT = iT])
       s2 == PoolCt(PoolAmt(s1, l.pool, pr.ain, -b.cin), l.pool, pr.ain, -b.cin)
       s3 == AddTL(AddTB(s2, pr.opool, pr.aout, b.st, -b.out), l.pool, l.asset, -b.cin)
       l2 == [l EXCEPT !.ain = @ - b.cin]
